@@ -2033,11 +2033,10 @@ fn generate_autocoerce(
 					let address = generate_tmp_address(value, vtype, llvm)?;
 					generate_ext_array_view(address, element_type, llvm)
 				}
-				Expression::FunctionCall { .. } | Expression::Builtin(..)
-					if matches!(
-						expression.value_type(),
-						ValueType::Slice { .. }
-					) =>
+				_ if matches!(
+					expression.value_type(),
+					ValueType::Slice { .. }
+				) =>
 				{
 					let slice = expression.generate(llvm)?;
 					let (address, _length) =
